@@ -368,7 +368,7 @@ def generate(cls, rng):
               fwd=rng.choice([0, 0, 0, 6, rng.randrange(7)]),
               blank_ids=rng.random() < 0.3,
               source=rng.choice(["stringio", "stringio", "path", "crlf",
-                                 "shortstream"]))
+                                 "shortstream", "stringio_offset"]))
     if sc["y0"] != 1990:
         # plain unbounded rules only, no component three centuries ahead
         sc.update(form="rrule", other_form="rrule", dormant=None,
@@ -528,6 +528,17 @@ class ZoneUnderTest(object):
             # a text stream that delivers legal short reads
             from dsim.simfs import ShortTextStream
             ical = tz.tzical(ShortTextStream(self.text, len(self.text)))
+        elif sc.get("source") == "stringio_offset":
+            # a stream the caller has already read from (an earlier calendar
+            # object with another zone): reading starts at the stream's
+            # position
+            pre = "\n".join(
+                ["BEGIN:VCALENDAR", "VERSION:2.0"] +
+                vtimezone(sc["other"], "Zone/Before", sc["other_form"],
+                          False, 4) + ["END:VCALENDAR"]) + "\n"
+            st = io.StringIO(pre + self.text)
+            st.read(len(pre))
+            ical = tz.tzical(st)
         else:
             ical = tz.tzical(io.StringIO(self.text))
         if sc.get("multi"):
